@@ -498,6 +498,16 @@ func init() {
 					}
 				}
 			}
+			// the same commands after an earlier Readline call left through each of them
+			// (flags kept in Sources between calls)
+			for _, prev := range []string{"accept-line", "accept-and-hold", "operate-and-get-next", "accept-and-infer-next-history", "abort"} {
+				for _, cmd := range []string{"accept-line", "accept-and-hold", "operate-and-get-next", "abort"} {
+					cj := mkJob(".ZZ_C08_Cmd", shellSetup, "cmd", cmd, "ml", "none", "n", "2", "k", "1", "prev", prev)
+					cj.Stubs = paintStubs
+					cj.Reach = []string{"returned|still-editing", "first-call-returned"}
+					jobs = append(jobs, cj)
+				}
+			}
 			return jobs
 		},
 		Assumptions: []string{
